@@ -76,15 +76,27 @@ def _rooted_in_self(e):
     return any(p == "self" or p.startswith("self.") for p in mir.paths_in(e))
 
 
-def live_across_yield(b, take_bb):
-    """Does the value produced by the call in `take_bb` survive in a local up to some Yield?  Returns the first
-    such Yield block (or None).  The value is followed through local-to-local moves; any other move (into a place
-    with projections, a call argument, an aggregate, the return place) or a Drop kills it."""
-    t = b.term(take_bb)
-    dest = t.get("d")
-    if not dest or len(dest) != 1 or t.get("tgt") is None:
-        return None
-    start = (t["tgt"], 0, dest[0])
+def _is_payload_path(proj):
+    """`@Variant .0:0 [@Variant .0:0 ...]`: the single payload of tuple-like wrappers (Some / Ok / Ready / Continue / Data(..))"""
+    if not proj or len(proj) % 2:
+        return False
+    return all(isinstance(a, str) and a.startswith("@") and isinstance(f, str) and f.split(":")[0] == ".0" and f.endswith(":0")
+               for a, f in zip(proj[0::2], proj[1::2]))
+
+
+def live_across_yield(b, take_bb, start=None):
+    """Does the value produced by the call in `take_bb` (or held by local `start[1]` from block `start[0]`) survive in a local
+    up to some Yield?  Returns the first such Yield block (or None).  The value is followed through local-to-local moves,
+    payload extraction from wrappers and value-preserving calls; a move of the whole value anywhere else (a place with
+    projections, a call argument, an aggregate, the return place) or its Drop kills it; a partial move does not."""
+    if start is None:
+        t = b.term(take_bb)
+        dest = t.get("d")
+        if not dest or len(dest) != 1 or t.get("tgt") is None:
+            return None
+        start = (t["tgt"], 0, dest[0])
+    else:
+        start = (start[0], 0, start[1])
     seen = set()
     work = [start]
     ys = set(b.yields())
@@ -110,8 +122,9 @@ def live_across_yield(b, take_bb):
                     killed = True
                     break
             elif rv["r"] == "use" and rv.get("o") and rv["o"][0] == "m" and rv["o"][1][0] == cur and len(rv["o"][1]) > 1 \
-                    and len(s["p"]) == 1 and all(isinstance(x, str) and (x.startswith("@") or x.startswith(".")) for x in rv["o"][1][1:]):
-                cur = s["p"][0]              # the payload moved out of the wrapper (`(x as Some).0`, `(cf as Continue).0`)
+                    and len(s["p"]) == 1 and _is_payload_path(rv["o"][1][1:]):
+                cur = s["p"][0]              # the payload moved out of its wrapper (`(x as Some).0`, `(cf as Continue).0`);
+                #                              a move of a named / further field is a partial move: the parent stays tracked
             elif s["p"] == [cur]:
                 killed = True                # overwritten
                 break
@@ -150,6 +163,34 @@ def sites(F, fns):
                 continue
             out.append((fn, b, bb, mir.show(e), live_across_yield(b, bb)))
     return out
+
+
+def frames_rule(ck, F, rid):
+    ck.rule(rid, "a frame taken from the port queue is put away before the receiver can be suspended again: in "
+            "chmux::Receiver::recv_any / recv_chunk the message obtained from self.rx.recv().await is moved on (stored, returned, "
+            "handed to recv_data) or dropped before any further suspension point",
+            "receive cancelled (timeout / select!) at an await placed between taking a frame from the queue and storing it (e.g. "
+            "a credit flush while the return path is congested): the frame is lost — a lost first frame loses the message, a "
+            "lost middle frame delivers a message with bytes missing", floor=2)
+    n = 0
+    for fn in ("chmux::receiver::Receiver::recv_any", "chmux::receiver::Receiver::recv_chunk"):
+        b = F.main_body(fn)
+        for a in b.awaits():
+            if not (a.get("fut_fn") or a.get("fut_ty") or "").startswith("tokio::sync::mpsc::UnboundedReceiver") and \
+                    "UnboundedReceiver" not in (a.get("fut_ty") or "") and "unbounded::UnboundedReceiver" not in (a.get("fut_fn") or ""):
+                continue
+            if a.get("ready_bb") is None or a.get("poll_bb") is None:
+                continue
+            d = b.term(a["poll_bb"]).get("d")
+            if not d or len(d) != 1:
+                continue
+            n += 1
+            y = live_across_yield(b, None, start=(a["ready_bb"], d[0]))
+            ck.expect(y is None, f"{fn.split('::')[-1]}#queue-frame-put-away",
+                      "the received message is moved on or dropped before the next suspension point",
+                      f"{fn}: the message taken from the port queue at line {a['line']} is still held in a local at the suspension "
+                      f"point {b.loc(y) if y is not None else ''}; cancelling the receive there loses the frame", b.loc(a["ready_bb"]))
+    ck.expect(n >= 2, "queue-frames#sites", f"{n} queue receives", f"only {n} queue receives found", None)
 
 
 def rule(ck, F, rid, only=None, floor=3):
